@@ -11,13 +11,13 @@ pub static DEF: CheckDef = CheckDef {
     id: "C07",
     run,
     replay,
-    rule: "complete product IF (32) x IE (32) x master enable (off, on, EI-pending) x run state (running, halted, stopped) x 64 stack pointers (0x0000/0x0001/0x0002 so that a push lands on IE, 0xFF10/0xFF11 on IF, 0x2001/0x4001/0x6001 on bank registers, both sides of every region boundary, I/O registers with side effects: DIV, DMA, STAT, LCDC) x PC values (all 256 high bytes when the high-byte push lands on IE or IF, all 256 low bytes when the low-byte push does, 4 otherwise), poked into two identical machines; one calls Core::handle_interrupt, the other is driven by the reference dispatch model (models::irq) through its bus. Compared: run state, master enable, PC, SP (as full 32-bit fields), charged cycles, IF, IE, the ordered list of bus writes (hook) and the complete machine state. IF and IE are also written with their unused upper bits set (only sources 0-4 exist). Second pass: the same product on 6 stack pointers reached through update(), run_interp() and run_code_block(). Third pass: proptest states with arbitrary SP/PC. Fifth pass (the push itself raises a request): with the timer armed (selected divider bit high, TIMA = 0xFF) or LYC = LY, SP = 0xFF08 / 0xFF07 / 0xFF42 / 0xFF46 and all 256 PC high bytes, so that the high-byte push onto TAC, STAT or LYC changes IF through the device - the source must be the highest-priority one pending after that push. Fourth pass (the five machine cycles are really charged): for every non-empty IF x 4 handler shapes x 4 (IE, halted?, SP, PC) settings, after handle_interrupt() has dispatched, the handler's first step is run by update() of the interpreter build, as a block of the interpreter build and as a translated block of the jit build; the clocks delivered to the devices by that step (hook: running total; the divider) must be 4 x (5 + the machine cycles of the instructions executed, per models::sm83), last_block_cycle_length must say the same and no cycles may remain pending. Non-trivial = states with a pending enabled source; classes: two or more pending, masked only, cancelled by the push, woken from HALT/STOP, push on IE / IF / bank register.",
+    rule: "complete product IF (32) x IE (32) x master enable (off, on, EI-pending) x run state (running, halted, stopped) x 64 stack pointers (0x0000/0x0001/0x0002 so that a push lands on IE, 0xFF10/0xFF11 on IF, 0x2001/0x4001/0x6001 on bank registers, both sides of every region boundary, I/O registers with side effects: DIV, DMA, STAT, LCDC) x PC values (all 256 high bytes when the high-byte push lands on IE or IF, all 256 low bytes when the low-byte push does, 4 otherwise), poked into two identical machines; one calls Core::handle_interrupt, the other is driven by the reference dispatch model (models::irq) through its bus. Compared: run state, master enable, PC, SP (as full 32-bit fields), charged cycles, IF, IE, the ordered list of bus writes (hook) and the complete machine state. IF and IE are also written with their unused upper bits set (only sources 0-4 exist). Second pass: the same product on 6 stack pointers reached through update(), run_interp() and run_code_block(), the instruction stepped over being a NOP (a JR for the block path) and, for update() and run_interp(), also DI and EI from every master-enable state (EI pending included). Third pass: proptest states with arbitrary SP/PC. Fifth pass (the push itself raises a request): with the timer armed (selected divider bit high, TIMA = 0xFF) or LYC = LY, SP = 0xFF08 / 0xFF07 / 0xFF42 / 0xFF46 and all 256 PC high bytes, so that the high-byte push onto TAC, STAT or LYC changes IF through the device - the source must be the highest-priority one pending after that push. Fourth pass (the five machine cycles are really charged): for every non-empty IF x 4 handler shapes x 4 (IE, halted?, SP, PC) settings, after handle_interrupt() has dispatched, the handler's first step is run by update() of the interpreter build, as a block of the interpreter build and as a translated block of the jit build; the clocks delivered to the devices by that step (hook: running total; the divider) must be 4 x (5 + the machine cycles of the instructions executed, per models::sm83), last_block_cycle_length must say the same and no cycles may remain pending. Non-trivial = states with a pending enabled source; classes: two or more pending, masked only, cancelled by the push, woken from HALT/STOP, push on IE / IF / bank register.",
     assumptions: &[
         "models::irq (dispatch sequence from the CPU documentation: high byte pushed first, source chosen after the high-byte push, five machine cycles)",
         "when the low-byte push itself lands on IF the order of that write and the acknowledge is not prescribed: both resulting IF values are accepted",
         "bus side effects of the two pushes are produced by the repository's own bus on the twin machine (address decode is C10's subject)",
     ],
-    required_classes: &["two-or-more-pending", "masked-only", "cancelled", "woken-halt", "woken-stop", "push-on-ie", "push-on-if", "push-on-bank-register", "ime-off-pending", "via-update", "via-run_interp", "via-run_code_block", "generated-state", "unused-bits-set-in-both", "dispatch-cycles-reach-devices", "after-dispatch-jit-block", "push-onto-armed-device", "request-raised-by-the-push-is-taken"],
+    required_classes: &["two-or-more-pending", "masked-only", "cancelled", "woken-halt", "woken-stop", "push-on-ie", "push-on-if", "push-on-bank-register", "ime-off-pending", "via-update", "via-run_interp", "via-run_code_block", "generated-state", "unused-bits-set-in-both", "dispatch-cycles-reach-devices", "after-dispatch-jit-block", "push-onto-armed-device", "request-raised-by-the-push-is-taken", "stepped-over-di-or-ei"],
     exhaustive: true,
 };
 
@@ -69,6 +69,11 @@ fn new_pair() -> Pair {
     // a one-instruction block for the run_code_block path: JR -2 at 0x0150
     rom.bytes[0x150] = 0x18;
     rom.bytes[0x151] = 0xfe;
+    // single instructions for the update() / run_interp() paths: NOP at 0x0160 (the ROM's
+    // fill), DI at 0x0162, EI at 0x0164
+    rom.bytes[0x160] = 0x00;
+    rom.bytes[0x162] = 0xf3;
+    rom.bytes[0x164] = 0xfb;
     let mut a = i::M::new(&rom);
     let mut t = i::M::new(&rom);
     a.fill_ram(0xc07);
@@ -191,19 +196,24 @@ fn exec(p: &mut Pair, c: &Case, rec: &mut Rec, counting: bool, full: bool) -> Ca
     let mut cpu = IrqCpu { pc: c.pc, sp: c.sp, ime: ime_model(c.ime), run: run_model(c.run), cycles: 0 };
     match c.path {
         0 => {}
-        1 => {
-            if c.run == RUN {
-                cpu.pc = cpu.pc.wrapping_add(1); // the NOP at PC
+        1 | 2 => {
+            if c.path == 2 || c.run == RUN {
+                // the one-byte instruction at PC: NOP, DI or EI. EI's delayed enable takes
+                // effect once the instruction after it has completed; DI acts at once
+                let op = p.t.read(c.pc);
+                cpu.pc = cpu.pc.wrapping_add(1);
                 if cpu.ime == Ime::EnableNext {
                     cpu.ime = Ime::Enabled;
                 }
-            }
-            p.t.run_clocks(4);
-        }
-        2 => {
-            cpu.pc = cpu.pc.wrapping_add(1);
-            if cpu.ime == Ime::EnableNext {
-                cpu.ime = Ime::Enabled;
+                match op {
+                    0xf3 => cpu.ime = Ime::Disabled,
+                    0xfb => {
+                        if cpu.ime == Ime::Disabled {
+                            cpu.ime = Ime::EnableNext;
+                        }
+                    }
+                    _ => {}
+                }
             }
             p.t.run_clocks(4);
         }
@@ -489,6 +499,18 @@ fn run(rec: &mut Rec) {
                         rec.eval(1);
                         if let Err(f) = exec(&mut p, &c, rec, true, true) {
                             rec.violation(&f.sig, case_json(&c), f.detail);
+                        }
+                    }
+                    // the instruction stepped over is DI or EI: the check that follows it sees
+                    // the master enable as that instruction leaves it
+                    if path != 3 {
+                        for pc in [0x0162u16, 0x0164] {
+                            let c = Case { if_, ie, ime, run, sp: 0xd000, pc, path, prep: 0 };
+                            rec.eval(1);
+                            rec.class("stepped-over-di-or-ei", 1);
+                            if let Err(f) = exec(&mut p, &c, rec, true, true) {
+                                rec.violation(&format!("{}-after-{}", f.sig, if pc == 0x0162 { "di" } else { "ei" }), case_json(&c), f.detail);
+                            }
                         }
                     }
                 }
